@@ -4,6 +4,7 @@ use rustc_version::{version_meta, Channel};
 
 fn main() {
     println!("cargo:rustc-check-cfg=cfg(rustc_nightly)");
+    println!("cargo:rustc-check-cfg=cfg(sas_lexer_verif)");
 
     let version_meta = version_meta().expect("No rustc version found!");
     if version_meta.channel == Channel::Nightly {
